@@ -315,6 +315,11 @@ pub fn child(ctx: &Ctx) -> i32 {
             Err(_) => rep.count("load_panicked(C04)"),
         }
     }
+    // thorough only: huge rules (a list of 10^5 members; an or-group over more distinct fields
+    // than the matrix's one-character keys can number before the surrogate gap)
+    if !ctx.quick() {
+        huge_rules(&mut rep);
+    }
     crate::regress::replay_witnesses(ctx, &mut rep);
     let accepted: u64 = (0..5).map(|k| rep.get(&format!("stream{}.accepted", k))).sum();
     if accepted < 200 {
@@ -335,4 +340,66 @@ pub fn child(ctx: &Ctx) -> i32 {
 
 pub fn run(ctx: &Ctx) -> i32 {
     crate::c04::run(ctx, "c03")
+}
+
+fn huge_rules(rep: &mut Report) {
+    // (1) 100 000 list members under a plain key and under all()
+    for key in ["k", "all(k)", "of(k, 2)"] {
+        let mut t = format!("detection:\n  A:\n    '{}':\n", key);
+        for i in 0..100_000 {
+            t.push_str(&format!("    - '*m{}.*'\n", i));
+        }
+        t.push_str("  condition: A\ntrue_positives: []\ntrue_negatives: []\n");
+        set_case("huge-list", key);
+        match eng::load(&t) {
+            Ok(Load::Ok(r)) => {
+                rep.count("huge.list_loaded");
+                let doc = DVal::Obj(vec![("k".into(), DVal::s("_m99999._m5."))]);
+                for sw in [Sw(0), Sw(15)] {
+                    rep.evaluations += 1;
+                    let res = if sw.0 == 0 { Ok(*r.clone()) } else { eng::optimise(&r, sw) }.and_then(|o| eng::matches(&o, &to_yaml_map(&doc)));
+                    match res {
+                        Ok(v) => {
+                            if v != (key != "all(k)") {
+                                rep.violation("verdict", "c03-huge-list-verdict", &format!("100000-member list under {} gives {} on a document containing exactly two of its members", key, v), json!({"rule": "generated: 100000 members '*m<i>.*' under the key", "key": key, "switches": sw.0}));
+                            }
+                        }
+                        Err(p) => rep.violation("panic", &format!("c03-panic:{}", p.sig()), &format!("rule with a 100000-member list under {} panics at {}", key, p.sig()), json!({"rule": "generated: 100000 members '*m<i>.*' under the key", "key": key, "panic": p.sig()})),
+                    }
+                }
+            }
+            Ok(Load::Err(_)) => rep.count("huge.list_rejected"),
+            Err(_) => rep.count("load_panicked(C04)"),
+        }
+    }
+    // (2) more than 55 296 matrix columns
+    {
+        let n = 56_000;
+        let mut t = String::from("detection:\n  A:\n");
+        for i in 0..n {
+            t.push_str(&format!("  - f{}: v\n", i));
+        }
+        t.push_str("  - f0: w\n  condition: A\ntrue_positives: []\ntrue_negatives: []\n");
+        set_case("huge-matrix", "56000 columns");
+        match eng::load(&t) {
+            Ok(Load::Ok(r)) => {
+                rep.count("huge.matrix_rule_loaded");
+                let doc = DVal::Obj(vec![("f55999".into(), DVal::s("v"))]);
+                for sw in [Sw(8), Sw(15)] {
+                    rep.evaluations += 1;
+                    match eng::optimise(&r, sw).and_then(|o| eng::matches(&o, &to_yaml_map(&doc))) {
+                        Ok(v) => {
+                            if !v {
+                                rep.violation("verdict", "c03-huge-matrix-verdict", "56000-column rule does not match after optimisation", json!({"rule": "generated: sequence of 56000 one-entry mappings f<i>: v plus f0: w", "switches": sw.0}));
+                            }
+                        }
+                        Err(p) => rep.violation("panic", &format!("c03-panic:{}", p.sig()), &format!("rule whose matrix would have {} columns panics at {} (optimise[{}])", n, p.sig(), sw.name()), json!({"rule": "generated: sequence of 56000 one-entry mappings f<i>: v plus f0: w", "switches": sw.0, "panic": p.sig()})),
+                    }
+                }
+            }
+            Ok(Load::Err(_)) => rep.count("huge.matrix_rule_rejected"),
+            Err(_) => rep.count("load_panicked(C04)"),
+        }
+    }
+    clear_case();
 }
